@@ -263,7 +263,16 @@ fn prepare_one(case: &mut J, sources: &[Src], layout_rng: Option<Rng>) {
     let mut names = BTreeSet::new();
     collect_svar_names(&case["prog"], &mut names);
     case["svnames"] = json!(names.into_iter().collect::<Vec<_>>());
-    case["retab"] = json!(regex_tables(case, src));
+    let load_only = case["load_only"].as_bool().unwrap_or(false);
+    case["retab"] = if load_only { json!([]) } else { json!(regex_tables(case, src)) };
+    // which arm regexes match the empty string (regex crate)
+    let mut res = BTreeSet::new();
+    collect_strings(&case["prog"], &mut BTreeSet::new(), &mut res);
+    let mut renull = serde_json::Map::new();
+    for re in res {
+        renull.insert(re.clone(), json!(regex::Regex::new(&re).map(|r| r.captures("").is_some()).unwrap_or(false)));
+    }
+    case["renull"] = J::Object(renull);
     if case.get("cancel_at").is_none() {
         case["cancel_at"] = json!(0);
     }
@@ -306,6 +315,11 @@ fn run_one<'tree>(case: &mut J, src: &'tree Src, graph: &mut tree_sitter_graph::
         }
         Ok(Ok(f)) => f,
     };
+    if case["load_only"].as_bool().unwrap_or(false) {
+        case["events"] = json!([]);
+        case["outcome"] = json!({"status": "loaded"});
+        return;
+    }
     // globals: optionally split over a parent set and a nested set ("globals_outer" = names kept in the parent)
     let outer_names: Vec<String> = case["globals_outer"]
         .as_array()
